@@ -1,12 +1,20 @@
 import LoraVerif.Gen.Modulation
 import LoraVerif.Spec.Airtime
+import LoraVerif.Model.Bw
 import Driver.Util
 /-! Suite C16/C15 (lora-modulation): model = generated functions, spec = `Spec.Airtime`. -/
 open Gen.Modulation
 namespace Driver.C16
 
 def sfOf? (n : Int) : Option SpreadingFactor := SpreadingFactor.all.find? (fun s => s.factor == n)
-def bwOf? (n : Int) : Option Bandwidth := Bandwidth.all.find? (fun b => b.hz == n)
+def bwOf? (n : Int) : Option Bandwidth :=
+  -- op lines name a bandwidth by the datasheet's figure in Hz (the C13 harness's own table, legacy replays)
+  -- or by the crate's current `hz()`
+  match n with
+  | 7810 => some ._7KHz | 10420 => some ._10KHz | 15630 => some ._15KHz | 20830 => some ._20KHz
+  | 31250 => some ._31KHz | 41670 => some ._41KHz | 62500 => some ._62KHz | 125000 => some ._125KHz
+  | 250000 => some ._250KHz | 500000 => some ._500KHz
+  | _ => Bandwidth.all.find? (fun b => b.hz == n)
 def crOf? (n : Int) : Option CodingRate := CodingRate.all.find? (fun c => c.denom == n)
 
 /-- params as the code builds them (`new`), with the public ldro flag optionally overridden -/
@@ -21,7 +29,7 @@ def modelToa (sf : SpreadingFactor) (bw : Bandwidth) (cr : CodingRate) (ldro : O
   | some p => p.time_on_air_us pre hdr len
 
 def specToa (sf : SpreadingFactor) (bw : Bandwidth) (cr : CodingRate) (ldro : Option Bool) (pre : Option Int) (hdr : Bool) (len : Int) : Option Int :=
-  let l := match ldro with | some l => l | none => Spec.Airtime.ldro sf.factor bw.hz
+  let l := match ldro with | some l => l | none => Spec.Airtime.ldroPhys sf.factor (Model.PhyArith.specBw bw)
   let r := Spec.Airtime.toa sf.factor bw.hz l (!hdr) cr.denom len pre
   -- the specification also demands "never overflows" (u32 result)
   if 0 ≤ r ∧ r ≤ 4294967295 then some r else none
@@ -61,7 +69,7 @@ def handle (ws : List String) : String :=
       let m := match BaseBandModulationParams.new sf bw ._4_5 with
         | some p => s!"{p.t_sym_us},{p.ldro}"
         | none => "PANIC"
-      let s := s!"{Spec.Airtime.tsym sf.factor bw.hz},{Spec.Airtime.ldro sf.factor bw.hz}"
+      let s := s!"{Spec.Airtime.tsym sf.factor bw.hz},{Spec.Airtime.ldroPhys sf.factor (Model.PhyArith.specBw bw)}"
       s!"{m}|{s}"
     | _, _ => "bad-op"
   | ["delay_in_symbols", sf, bw, ms] =>
